@@ -1,5 +1,5 @@
 """Shared machinery for the per-property checks: builds, running both sides, evidence."""
-import fcntl, hashlib, json, os, re, shutil, subprocess, sys, time
+import shutil, fcntl, hashlib, json, os, re, shutil, subprocess, sys, time
 
 VERIF = os.path.dirname(os.path.dirname(os.path.abspath(__file__)))
 # VERIF_REPO / VERIF_BUILD are used only by self-tests that point the machinery at a scratch copy of
@@ -123,23 +123,52 @@ def build_rust():
     return time.time() - t
 
 
-def regen_tables():
-    """T1: tables regenerated from the running code."""
-    if "VERIF_REPO" in os.environ and not os.environ.get("VERIF_SELFTEST_REGEN"):
-        # self-test against a scratch copy: the shared coq/gen keeps describing /repo (mutants that change
-        # the catalogue are tested by patching /repo itself)
-        return
-    os.makedirs(os.path.join(COQ, "gen"), exist_ok=True)
+def _gen_tables(gendir):
+    """run the translators against the current build; returns the path of catalogue.json"""
+    os.makedirs(gendir, exist_ok=True)
     rc, out = sh([os.path.join(HARNESS_DIR, "catalogue")])
     cat = os.path.join(BUILD, "catalogue.json")
     write_if_changed(cat, out)
     tmp = os.path.join(BUILD, "Catalogue.v.new")
     sh([sys.executable, os.path.join(VERIF, "translators", "catalogue.py"), cat, tmp])
-    write_if_changed(os.path.join(COQ, "gen", "Catalogue.v"), open(tmp).read())
+    write_if_changed(os.path.join(gendir, "Catalogue.v"), open(tmp).read())
     for name in ("execscripts.py", "registry.py"):
         tr = os.path.join(VERIF, "translators", name)
         if os.path.exists(tr):
-            sh([sys.executable, tr, REPO, os.path.join(COQ, "gen")])
+            sh([sys.executable, tr, REPO, gendir])
+    return cat
+
+
+def regen_tables():
+    """T1: tables regenerated from the running code."""
+    global COQ
+    if "VERIF_REPO" not in os.environ or os.environ.get("VERIF_SELFTEST_REGEN"):
+        _gen_tables(os.path.join(COQ, "gen"))
+        return
+    # self-test against a scratch copy of the repository: the shared coq/gen keeps describing /repo.  The tables
+    # of the scratch tree are generated aside; when they differ from the shared ones (a change to a signature,
+    # a constant, a doc comment, an exec body) the whole Coq project is copied into this run's build directory
+    # and rebuilt there with the new tables, exactly as ./check would do on /repo itself.
+    probe = os.path.join(BUILD, "gen_probe")
+    shutil.rmtree(probe, ignore_errors=True)
+    _gen_tables(probe)
+    shared = os.path.join(COQ, "gen")
+    same = True
+    for f in sorted(os.listdir(probe)):
+        if f.endswith(".v"):
+            a = open(os.path.join(probe, f)).read()
+            b = open(os.path.join(shared, f)).read() if os.path.exists(os.path.join(shared, f)) else None
+            if a != b:
+                same = False
+    if same:
+        return
+    priv = os.path.join(BUILD, "coq")
+    sh(["rsync", "-a", "--delete", COQ + "/", priv + "/"])
+    for f in os.listdir(probe):
+        if f.endswith(".v"):
+            write_if_changed(os.path.join(priv, "gen", f), open(os.path.join(probe, f)).read())
+    COQ = priv
+    log("self-test: regenerated tables differ from the shared ones; Coq project rebuilt privately in " + priv)
 
 
 def build_coq(targets=None, timeout=3000):
@@ -295,6 +324,9 @@ def parse_results(d, names, rc, out, err, timed_out, keep=False):
     return res
 
 
+STALE_OUTPUT = bytes(range(256)) * 256          # 64 KiB that is not a pcap
+
+
 def run_programs(tag, programs, files=None, keep=False, batch=40, timeout=120):
     """programs: dict name -> source text (str or bytes).  files: dict relative-name -> bytes, written
     into the work directory (programs refer to them by absolute path).  Returns dict name -> ImplResult."""
@@ -309,6 +341,9 @@ def run_programs(tag, programs, files=None, keep=False, batch=40, timeout=120):
         src = programs[n]
         with open(os.path.join(d, n + ".rsyn"), "wb") as f:
             f.write(src if isinstance(src, bytes) else src.encode("utf-8"))
+        # the output path already exists and is longer than most outputs: the compiler must replace it, not overwrite its head
+        with open(os.path.join(d, n + ".pcap"), "wb") as f:
+            f.write(STALE_OUTPUT)
     results = {}
     pending = [names[i:i + batch] for i in range(0, len(names), batch)]
     while pending:
